@@ -601,6 +601,7 @@ def _count_situations(case):
 def run_cases(cases, out, label, chunk=20000):
     items = []
     index = {}
+    t_start = time.time()
     for ci, case in enumerate(cases):
         item, detail = execute(case)
         _count_situations(case)
@@ -610,7 +611,9 @@ def run_cases(cases, out, label, chunk=20000):
         out.add_case((case["op"], [s[:4] + [_shape(s)] for s in case["script"]]), nontrivial=len(item["calls"]) >= 2)
     if not items:
         raise tlc.MachineryError("no cases for %s" % label)
+    t_exec = time.time()
     verdicts = tracecheck.validate("Guarded", "TraceGuarded", "TraceGuarded.cfg", items, name="c17trace", chunk=chunk, timeout=1500)
+    out.note("%s: %d cases executed in %.1fs, validated by TLC in %.1fs" % (label, len(items), t_exec - t_start, time.time() - t_exec))
     out.traces_validated += verdicts.accepted(len(items))
     for tid, fails in verdicts.l1.items():
         case, item, detail = index[tid]
@@ -694,7 +697,7 @@ def run(ctx, out):
         for _ in range(4):
             cover += edge_cover(ops, rnd)
     out.note("leg S2C: edge cover %d cases over %d operations" % (len(cover), len(ops)))
-    sims = behaviours_from_sim(ctx, out, 1200 if quick else 40000, rnd, chooser)
+    sims = behaviours_from_sim(ctx, out, 1000 if quick else 40000, rnd, chooser)
     out.note("leg S2C: %d TLC -simulate behaviours" % len(sims))
     # ---- cases not derived from TLC
     rnd_cases = random_cases(ctx.seed + 170, 3000 if quick else 60000, ops)
